@@ -110,26 +110,119 @@ pub fn vx_abs_pick_nodes(all_sorted_nodes: &mut Vec<(Distance, NodeHandle, bool)
                          dist_to_beat: DistanceToBeat, target_id: InfoHash) -> (r: (Option<[(NodeHandle, bool); ITERATIVE_PICK_NUM]>, DistanceToBeat))
 { unimplemented!() }
 
+//@begin const src/action/lookup.rs - LOOKUP_TIMEOUT
+pub exec const LOOKUP_TIMEOUT: Duration ensures dur_nanos(LOOKUP_TIMEOUT) == 1_500_000_000 { Duration::from_millis(1500) }
+//@end
+/// a get_peers query of this search: 8-byte id with the search's action prefix, own id, searched info-hash, no `want`
+pub open spec fn lookup_query(l: TableLookup, e: Ev) -> bool {
+    e matches Ev::Send(m, _) && m.body matches MessageBody::Request(Request::GetPeers(g))
+    && g.id == l.this_node_id && g.info_hash == l.target_id && g.want is None && m.transaction_id@.len() == 8
+    && (forall|t: TransactionID| #[trigger] t.bytes@ == m.transaction_id@ ==> tid_value(t) >> 24 == l.id_generator.action_id >> 24)
+}
+
 impl TableLookup {
-    // ASSUMED contracts (generic iterator parameter / iter_mut().filter(): outside Verus' subset): a request round only sends get_peers queries,
-    // schedules its own timeouts, marks nodes; it never yields, never touches the tokens, never schedules a table refresh
-    #[verifier::external_body]
-    pub fn start_request_round<'a, I>(&mut self, nodes: I, socket: &Socket, timer: &mut Timer<ScheduledTaskCheck>, Tracked(tr): Tracked<&mut Trace>)
-        where I: Iterator<Item = (&'a NodeHandle, DistanceToBeat)>
+//@begin fn src/action/lookup.rs impl:TableLookup start_request_round rules=R-deasync props=C03,C19,C17
+    #[verifier::exec_allows_no_decreases_clause]
+    pub fn start_request_round<'a, I>(
+        &mut self,
+        nodes: I,
+        socket: &Socket,
+        timer: &mut Timer<ScheduledTaskCheck>,
+        Tracked(tr): Tracked<&mut Trace>,
+    ) where
+        I: Iterator<Item = (&'a NodeHandle, DistanceToBeat)>,
         requires old(timer).wf()
-        ensures only_requests_and_yields(old(tr).ev, final(tr).ev), no_yield(old(tr).ev, final(tr).ev), no_new_refresh(*old(timer), *final(timer)),
-            final(self).announce_tokens == old(self).announce_tokens, final(self).will_announce == old(self).will_announce,
+        ensures only_requests_and_yields(old(tr).ev, final(tr).ev), no_yield(old(tr).ev, final(tr).ev), // @C03.request_round_only_queries
+            no_new_refresh(*old(timer), *final(timer)),
+            final(self).announce_tokens == old(self).announce_tokens, final(self).will_announce == old(self).will_announce, // @C03.request_round_keeps_tokens
             final(self).target_id == old(self).target_id, final(self).this_node_id == old(self).this_node_id, final(self).in_endgame == old(self).in_endgame,
-    { unimplemented!() }
+            final(self).id_generator.action_id == old(self).id_generator.action_id,
+            // every datagram of the round is a get_peers query of this search with an 8-byte id of this search
+            forall|i: int| old(tr).ev.len() <= i < final(tr).ev.len() && #[trigger] final(tr).ev[i] is Send ==> lookup_query(*old(self), final(tr).ev[i]), // @C19.lookup_queries_carry_8_byte_ids_of_the_search
+            forall|i: int| old(tr).ev.len() <= i < final(tr).ev.len() && #[trigger] final(tr).ev[i] is Send ==> blen(final(tr).ev[i]->Send_0) <= 1500, // @C17.lookup_queries_fit_1500_bytes
+    {
+        proof { lemma_consts(); }
+        let ghost ev0 = tr.ev;
+        // Loop through the given nodes
+        let mut messages_sent = 0;
+        let mut vx_it = nodes;
+        loop
+            invariant only_requests_and_yields(ev0, tr.ev), no_yield(ev0, tr.ev), // @C03.request_round_only_queries
+                no_new_refresh(*old(timer), *timer),
+                self.announce_tokens == old(self).announce_tokens, self.will_announce == old(self).will_announce, // @C03.request_round_keeps_tokens
+                self.target_id == old(self).target_id, self.this_node_id == old(self).this_node_id, self.in_endgame == old(self).in_endgame,
+                self.id_generator.action_id == old(self).id_generator.action_id,
+                forall|i: int| ev0.len() <= i < tr.ev.len() && #[trigger] tr.ev[i] is Send ==> lookup_query(*old(self), tr.ev[i]), // @C19.lookup_queries_carry_8_byte_ids_of_the_search
+                forall|i: int| ev0.len() <= i < tr.ev.len() && #[trigger] tr.ev[i] is Send ==> blen(tr.ev[i]->Send_0) <= 1500, // @C17.lookup_queries_fit_1500_bytes
+        {
+            let vx_nx = vx_it.next();
+            if vx_nx.is_none() {
+                break;
+            }
+            let (node, dist_to_beat) = vx_nx.unwrap();
+            // Generate a transaction id for this message
+            let trans_id = self.id_generator.generate();
+
+            // Try to start a timeout for the node
+            let timeout =
+                timer.schedule_in(LOOKUP_TIMEOUT, ScheduledTaskCheck::LookupTimeout(trans_id));
+
+            // Associate the transaction id with the distance the returned nodes must beat and the timeout token
+            self.active_lookups
+                .insert(trans_id, (dist_to_beat, timeout));
+
+            // Send the message to the node
+            let get_peers_msg = Message {
+                transaction_id: trans_id.as_ref().to_vec(),
+                body: MessageBody::Request(Request::GetPeers(GetPeersRequest {
+                    id: self.this_node_id,
+                    info_hash: self.target_id,
+                    want: None,
+                })),
+            };
+            proof {
+                assert forall|t: TransactionID| #[trigger] t.bytes@ == get_peers_msg.transaction_id@ implies t == trans_id by { assert(t.bytes =~= trans_id.bytes); }
+            }
+
+            if let Err(error) = socket.send(&get_peers_msg, node.addr, Tracked(tr)) {
+                continue;
+            }
+
+            // We requested from the node, mark it down
+            self.requested_nodes.insert(*node);
+
+            // Update the node in the routing table
+            if let Some(n) = self.table.lock().unwrap().find_node_mut(node, Tracked(tr)) {
+                n.local_request()
+            }
+
+            proof {
+                // ASSUMPTION A-round: fewer than 2^31 queries in one request round
+                assume(messages_sent < i32::MAX);
+            }
+            messages_sent += 1;
+        }
+
+        if messages_sent == 0 {
+            self.active_lookups.clear();
+        }
+    }
+//@end
+
+    // ASSUMED contract (iter_mut().filter() with mutation through the yielded reference: outside Verus' subset): the end-game round only sends
+    // get_peers queries, schedules its own timeout, marks nodes; it never yields, never touches the tokens, never schedules a table refresh
     #[verifier::external_body]
     pub fn start_endgame_round(&mut self, socket: &Socket, timer: &mut Timer<ScheduledTaskCheck>, Tracked(tr): Tracked<&mut Trace>) -> (r: ActionStatus)
         requires old(timer).wf()
         ensures only_requests_and_yields(old(tr).ev, final(tr).ev), no_yield(old(tr).ev, final(tr).ev), no_new_refresh(*old(timer), *final(timer)),
             final(self).announce_tokens == old(self).announce_tokens, final(self).will_announce == old(self).will_announce,
             final(self).target_id == old(self).target_id, final(self).this_node_id == old(self).this_node_id,
+            final(self).id_generator.action_id == old(self).id_generator.action_id,
+            forall|i: int| old(tr).ev.len() <= i < final(tr).ev.len() && #[trigger] final(tr).ev[i] is Send ==> lookup_query(*old(self), final(tr).ev[i]),
+            forall|i: int| old(tr).ev.len() <= i < final(tr).ev.len() && #[trigger] final(tr).ev[i] is Send ==> blen(final(tr).ev[i]->Send_0) <= 1500,
     { unimplemented!() }
 
-//@begin fn src/action/lookup.rs impl:TableLookup recv_response rules=R-deasync props=C03,C05
+//@begin fn src/action/lookup.rs impl:TableLookup recv_response rules=R-deasync props=C03,C05,C19
     pub fn recv_response(
         &mut self,
         node: Node,
@@ -151,6 +244,10 @@ impl TableLookup {
             no_replies(old(tr).ev, final(tr).ev), only_requests_and_yields(old(tr).ev, final(tr).ev), // @C05.responses_never_answered
             no_new_refresh(*old(timer), *final(timer)),
             final(self).will_announce == old(self).will_announce, final(self).target_id == old(self).target_id, final(self).this_node_id == old(self).this_node_id,
+            final(self).id_generator.action_id == old(self).id_generator.action_id,
+            // every datagram sent while handling a response is a get_peers query of this search
+            forall|i: int| old(tr).ev.len() <= i < final(tr).ev.len() && #[trigger] final(tr).ev[i] is Send ==> lookup_query(*old(self), final(tr).ev[i]), // @C19.lookup_queries_carry_8_byte_ids_of_the_search
+            forall|i: int| old(tr).ev.len() <= i < final(tr).ev.len() && #[trigger] final(tr).ev[i] is Send ==> blen(final(tr).ev[i]->Send_0) <= 1500, // @C17.lookup_queries_fit_1500_bytes
     {
         broadcast use vstd::std_specs::hash::group_hash_axioms, nodehandle_key_model, tid_key_model;
         let ghost ev0 = tr.ev;
@@ -209,7 +306,8 @@ impl TableLookup {
             invariant it.snapshot@.remaining() == vals, 0 <= it.index@ <= vals.len(),
                 yields(tr.ev) == yields(ev0) + vals.take(it.index@ as int), no_replies(ev0, tr.ev), only_requests_and_yields(ev0, tr.ev),
                 self.announce_tokens == ann1, self.will_announce == old(self).will_announce, self.target_id == old(self).target_id, self.this_node_id == old(self).this_node_id,
-                *timer == tm1,
+                *timer == tm1, self.id_generator.action_id == old(self).id_generator.action_id, extends(ev1, tr.ev),
+                forall|i: int| ev1.len() <= i < tr.ev.len() ==> !(#[trigger] tr.ev[i] is Send),
         {
             let ghost k = it.index@;
             let ghost evb = tr.ev;
@@ -227,7 +325,7 @@ impl TableLookup {
     }
 //@end
 
-//@begin fn src/action/lookup.rs impl:TableLookup recv_timeout rules=R-deasync props=C03,C05
+//@begin fn src/action/lookup.rs impl:TableLookup recv_timeout rules=R-deasync props=C03,C05,C19
     pub fn recv_timeout(
         &mut self,
         trans_id: &TransactionID,
@@ -241,6 +339,8 @@ impl TableLookup {
             only_requests_and_yields(old(tr).ev, final(tr).ev), no_yield(old(tr).ev, final(tr).ev), // @C03.timeouts_yield_nothing
             no_new_refresh(*old(timer), *final(timer)),
             final(self).announce_tokens == old(self).announce_tokens, final(self).will_announce == old(self).will_announce,
+            forall|i: int| old(tr).ev.len() <= i < final(tr).ev.len() && #[trigger] final(tr).ev[i] is Send ==> lookup_query(*old(self), final(tr).ev[i]), // @C19.lookup_queries_carry_8_byte_ids_of_the_search
+            forall|i: int| old(tr).ev.len() <= i < final(tr).ev.len() && #[trigger] final(tr).ev[i] is Send ==> blen(final(tr).ev[i]->Send_0) <= 1500, // @C17.lookup_queries_fit_1500_bytes
     {
         broadcast use vstd::std_specs::hash::group_hash_axioms, tid_key_model;
         if self.active_lookups.remove(trans_id).is_none() {
